@@ -3,7 +3,7 @@
    direction (dX, dW) is  dY = f(dX, W) + f(X, dW), and the backward kernel must ADD to (gx, gw) the
    adjoint of that differential:  <gx' - gx, dX> + <gw' - gw, dW> = <dY, gy>  (stated without
    subtraction).  Over any commutative semiring.  Statements only; proofs in Tensor/ProofsBilinear.v. *)
-From Coq Require Import List Arith Lia Permutation Bool.
+From Coq Require Import List Arith Lia Permutation Bool Sorted ZArith.
 From PV Require Import Tensor.Kernels Tensor.Index Tensor.KernelProofs Tensor.ProofsBilinear.
 Import ListNotations.
 
